@@ -480,7 +480,9 @@ func checkSummaryOrder(p *Program, r *Result, vf *vectorFacts) {
 		}
 		if k, ok := kv.Key.(*ast.Ident); ok && k.Name == "GroupOpcode" {
 			if id, ok := kv.Value.(*ast.Ident); ok {
-				order = append(order, strings.TrimPrefix(id.Name, "Op"))
+				if _, isConst := g.info.ObjectOf(id).(*types.Const); isConst {
+					order = append(order, strings.TrimPrefix(id.Name, "Op"))
+				}
 			}
 		}
 		return true
